@@ -218,7 +218,11 @@ def configs(thorough, seed):
                     kk['inv_dtype'] = 'f64'
                 if i % 3 == 0:
                     kk['factor_dtype'] = 'f64'
-                out.append({'model': 'mlp2', 'dtype': 'f32', 'batch': 2,
+                # every other configuration on a model with a convolution
+                # (4-D weights) and a bias-free layer
+                out.append({'model': ('mlp2', 'conv', 'mlp2', 'nbfirst')[
+                                len(out) % 4],
+                            'dtype': 'f32', 'batch': 2,
                             'world': world, 'seed': seed, 'kfac': kk})
     return out
 
